@@ -93,6 +93,14 @@ CHECKS = {
              "by vf/defaults.py from the specification value. Two deviations found on the pinned commit were fixed (0d7d132).",
         design="4/C19",
         note="Trusted base: vf/defaults.py (the default as worded in the property), Hypothesis."),
+    "C18": dict(
+        technique="property-based negative testing (Hypothesis): one injector per stated legality rule introduces exactly that violation at a drawn position into a generated, compiling specification; oracle = ValueError (any other outcome is a violation)",
+        text="Generated-input search over instances of each of the stated legality rules: a legal base specification is drawn from the "
+             "generators, checked to compile, and one violation is injected at a drawn place (which rank, factor, directive position, "
+             "tuple member, Einsum); parsing + HiFiber(...) must raise ValueError. Found two un-refused instances of 'projects into the "
+             "output' on the pinned commit (both fixed).",
+        design="4/C18",
+        note="Trusted base: the injectors (vf/checks/c18.py) produce only instances the rules as stated cover; Hypothesis."),
 }
 
 NOT_APPLICABLE = {}
